@@ -63,7 +63,7 @@ pub fn plan(id: &str) -> Option<Plan> {
             rule: "same scenarios as C01 followed by a quiescence point and a probe burst of N+1 gated callers; non-trivial iff the history contained a panic, cancellation or wait-timeout and the probe ran; distinct = distinct (poll trace, outcome instants) signature",
             assumptions: BASE_ASSUMPTIONS.to_vec(),
             floor: 50,
-            engines: vec![Engine { name: "sim", salt: 1, quick: 3000, thorough: 120_000, serial: false, run: Box::new(|s, t| c01::scenario("C07", s, t)) }],
+            engines: vec![Engine { name: "sim", salt: 1, quick: 3000, thorough: 1_000_000, serial: false, run: Box::new(|s, t| c01::scenario("C07", s, t)) }],
             extra: None,
         },
         "C02" => Plan {
@@ -71,7 +71,7 @@ pub fn plan(id: &str) -> Option<Plan> {
             rule: "scenario = seeded limiter (3 window types, presets, L, P, timeout) + either 1-56 concurrent callers on clones with arrivals on window-boundary grids and cancellations, or a sequential driver issuing bursts after exact idle gaps; oracle = exact cut/span decision over the inner-call instants; non-trivial iff >=2 callers waited (or woke at the same instant) or >=1 was rejected; distinct = (poll trace, admission instants, outcomes, config) signature",
             assumptions: BASE_ASSUMPTIONS.to_vec(),
             floor: 50,
-            engines: vec![Engine { name: "sim", salt: 1, quick: 6000, thorough: 400_000, serial: false, run: Box::new(|s, t| c02::scenario("C02", s, t)) }],
+            engines: vec![Engine { name: "sim", salt: 1, quick: 6000, thorough: 2_000_000, serial: false, run: Box::new(|s, t| c02::scenario("C02", s, t)) }],
             extra: None,
         },
         "C15" => Plan {
@@ -79,7 +79,7 @@ pub fn plan(id: &str) -> Option<Plan> {
             rule: "same scenarios as C02; oracle = per-call decision instant vs first poll + timeout, rejected-never-inner / admitted-exactly-once, spare-capacity and idle-2P immediate admission clauses, waiter-needs-later-window check; non-trivial iff >=1 waiter was admitted later and >=1 call was rejected; distinct = (poll trace, admission instants, outcomes, config) signature",
             assumptions: BASE_ASSUMPTIONS.to_vec(),
             floor: 50,
-            engines: vec![Engine { name: "sim", salt: 1, quick: 6000, thorough: 400_000, serial: false, run: Box::new(|s, t| c02::scenario("C15", s, t)) }],
+            engines: vec![Engine { name: "sim", salt: 1, quick: 6000, thorough: 2_000_000, serial: false, run: Box::new(|s, t| c02::scenario("C15", s, t)) }],
             extra: None,
         },
         "C04" => Plan {
@@ -88,7 +88,7 @@ pub fn plan(id: &str) -> Option<Plan> {
             assumptions: BASE_ASSUMPTIONS.to_vec(),
             floor: 50,
             engines: vec![
-                Engine { name: "sim", salt: 1, quick: 6000, thorough: 400_000, serial: false, run: Box::new(|s, t| c04::scenario(s, t)) },
+                Engine { name: "sim", salt: 1, quick: 6000, thorough: 1_000_000, serial: false, run: Box::new(|s, t| c04::scenario(s, t)) },
                 Engine { name: "concurrent", salt: 2, quick: 4000, thorough: 200_000, serial: false, run: Box::new(|s, t| c03::scenario("C04", s, t)) },
             ],
             extra: None,
@@ -120,7 +120,7 @@ pub fn plan(id: &str) -> Option<Plan> {
             rule: "scenario = seeded retry layer (presets/builder, max_attempts 0-5 fixed or per-request, fixed/exponential/capped/jittered/custom backoff wrapped by a logging adapter, predicate on/off, no budget / token bucket / AIMD budget wrapped by a logging adapter) + 1-5 concurrent requests with outcome scripts of length <=6 over {ok, retryable, non-retryable}; oracle per request over the inner-call log; non-trivial iff >=1 retry happened and (with a budget) >=1 denial or >=2 requests competed; distinct = (poll trace, attempt instants, outcomes, config) signature",
             assumptions: BASE_ASSUMPTIONS.to_vec(),
             floor: 50,
-            engines: vec![Engine { name: "sim", salt: 1, quick: 6000, thorough: 400_000, serial: false, run: Box::new(|s, t| c05::scenario(s, t)) }],
+            engines: vec![Engine { name: "sim", salt: 1, quick: 6000, thorough: 2_000_000, serial: false, run: Box::new(|s, t| c05::scenario(s, t)) }],
             extra: None,
         },
         "C06" => Plan {
@@ -128,7 +128,7 @@ pub fn plan(id: &str) -> Option<Plan> {
             rule: "scenario = time limiter (fixed or per-request timeout of 1/5/10/50ms, cancel or detach mode) + 1-6 concurrent calls with inner latency 0, T-1ms, T, T+1ms, 3T, never, random, ok/err; oracle compares the virtual instant and value of the outer result and the fate of the inner call with the script; non-trivial iff >=1 timeout and >=1 latency within 1ms of its timeout; distinct = (poll trace, resolution instants, outcomes, mode) signature",
             assumptions: BASE_ASSUMPTIONS.to_vec(),
             floor: 50,
-            engines: vec![Engine { name: "sim", salt: 1, quick: 6000, thorough: 400_000, serial: false, run: Box::new(|s, t| c06::scenario(s, t)) }],
+            engines: vec![Engine { name: "sim", salt: 1, quick: 6000, thorough: 2_000_000, serial: false, run: Box::new(|s, t| c06::scenario(s, t)) }],
             extra: None,
         },
         "C10" => Plan {
@@ -184,7 +184,7 @@ pub fn plan(id: &str) -> Option<Plan> {
             rule: "scenario = hedge layer (max 1-4 attempts; default/fixed 0,10,50ms/no_delay/per-attempt delay table) + 1-3 requests whose k-th attempt has scripted latency from {0, d-1ms, d, d+1ms, 2d, 3d, 10d, never} and outcome ok/err; oracle from the observed start instant of every inner call and the observed completions; non-trivial iff >=2 attempts started and >=1 attempt failed; distinct = (attempt start instants, resolution, config) signature",
             assumptions: BASE_ASSUMPTIONS.to_vec(),
             floor: 50,
-            engines: vec![Engine { name: "sim", salt: 1, quick: 6000, thorough: 400_000, serial: false, run: Box::new(|s, t| c12::scenario(s, t)) }],
+            engines: vec![Engine { name: "sim", salt: 1, quick: 6000, thorough: 2_000_000, serial: false, run: Box::new(|s, t| c12::scenario(s, t)) }],
             extra: None,
         },
         "C14" => Plan {
@@ -193,7 +193,7 @@ pub fn plan(id: &str) -> Option<Plan> {
             assumptions: vec!["f64 reference with relative tolerance 1e-9 + 2ns", "sampled configurations and attempt numbers; dense only up to 10^4"],
             floor: 20,
             engines: vec![
-                Engine { name: "pure", salt: 1, quick: 1200, thorough: 20_000, serial: false, run: Box::new(|s, t| c14::scenario(s, t)) },
+                Engine { name: "pure", salt: 1, quick: 1200, thorough: 100_000, serial: false, run: Box::new(|s, t| c14::scenario(s, t)) },
                 Engine { name: "sim-outage", salt: 2, quick: 8, thorough: 64, serial: false, run: Box::new(|s, t| c14::outage(s, t)) },
             ],
             extra: None,
@@ -203,7 +203,7 @@ pub fn plan(id: &str) -> Option<Plan> {
             rule: "scenario = reconnect layer (policy none/fixed/exponential/jittered/custom/default, half of them wrapped by a logging adapter; max_attempts 0,1,2,5,unlimited; retry_on_reconnect on/off; predicate on/off; with_defaults) + 1-5 sequential requests with outcome scripts <=9 over {ok, reconnectable, other} and latencies; a sampler reads the published state every 500us; oracle per request over the inner-call log; non-trivial iff >=1 retry and >=1 request ended on an error path; distinct = (attempt instants, outcomes, config) signature",
             assumptions: BASE_ASSUMPTIONS.to_vec(),
             floor: 50,
-            engines: vec![Engine { name: "sim", salt: 1, quick: 4000, thorough: 200_000, serial: false, run: Box::new(|s, t| c16::scenario(s, t)) }],
+            engines: vec![Engine { name: "sim", salt: 1, quick: 4000, thorough: 60_000, serial: false, run: Box::new(|s, t| c16::scenario(s, t)) }],
             extra: None,
         },
         "C17" => Plan {
@@ -211,7 +211,7 @@ pub fn plan(id: &str) -> Option<Plan> {
             rule: "grid of 6 strategies x {no predicate via shortcut constructor, no predicate via builder, accept-all predicate, class predicate} x {backup ok, backup failing} x {predicate set before, after the strategy} = 96 configurations, each walked by the seeds (every configuration is run with inner Ok, handled error and rejected error, plus random payloads/latencies); oracle = pure reference function of (strategy, predicate, request, inner outcome, backup outcome) and the invocation log of the strategy closures; non-trivial iff the strategy was actually invoked; distinct = (grid index, payloads) signature",
             assumptions: BASE_ASSUMPTIONS.to_vec(),
             floor: 40,
-            engines: vec![Engine { name: "sim", salt: 1, quick: 2000, thorough: 100_000, serial: false, run: Box::new(|s, t| c17::scenario(s, t, None)) }],
+            engines: vec![Engine { name: "sim", salt: 1, quick: 2000, thorough: 500_000, serial: false, run: Box::new(|s, t| c17::scenario(s, t, None)) }],
             extra: Some(|_t, _s| serde_json::json!({"grid_size": c17::GRID, "grid_note": "scenario seeds are mapped onto the 96-cell grid by seed mod 1000003 mod 96; buckets in engines.sim list the per-cell counts"})),
         },
         "C18" => Plan {
@@ -219,7 +219,7 @@ pub fn plan(id: &str) -> Option<Plan> {
             rule: "scenario = health-check wrapper with its own background task on the paused clock: 1-5 resources, thresholds 1-4 (or the defaults), scripted result per (resource, check) over {healthy, degraded, unhealthy, unknown, slower than the timeout} in moody runs, 50-300 check intervals, strategies first-available / round-robin / prefer-healthy / two custom selectors; after every interval get_status of every resource is compared with a reference hysteresis machine and n get_usable + n get_healthy calls are judged for eligibility, None-iff-empty and round-robin evenness; non-trivial iff >=2 status flips and >=1 timed-out check; distinct = (published status sequence, config) signature",
             assumptions: BASE_ASSUMPTIONS.to_vec(),
             floor: 50,
-            engines: vec![Engine { name: "sim", salt: 1, quick: 600, thorough: 20_000, serial: false, run: Box::new(|s, t| c18::scenario(s, t)) }],
+            engines: vec![Engine { name: "sim", salt: 1, quick: 600, thorough: 60_000, serial: false, run: Box::new(|s, t| c18::scenario(s, t)) }],
             extra: None,
         },
         "C19" => Plan {
@@ -227,7 +227,7 @@ pub fn plan(id: &str) -> Option<Plan> {
             rule: "scenario = chaos configuration (seed; error and latency rates from {0, 0.01, 0.2, 0.5, 0.99, 1}; latency bounds in whole ms incl. min = max, min > max, 0; both builder orders; with/without error function) instantiated twice through separate layer() calls and fed the same 50-300 sequential requests; per request the decision (error injected / latency in virtual ms / pass) of both services is compared, injected errors must skip the inner call, extremes and bounds are checked; non-trivial iff both an injection and a pass occurred; distinct = (decision sequence, seed) signature",
             assumptions: BASE_ASSUMPTIONS.to_vec(),
             floor: 50,
-            engines: vec![Engine { name: "sim", salt: 1, quick: 1500, thorough: 60_000, serial: false, run: Box::new(|s, t| c19::scenario(s, t)) }],
+            engines: vec![Engine { name: "sim", salt: 1, quick: 1500, thorough: 200_000, serial: false, run: Box::new(|s, t| c19::scenario(s, t)) }],
             extra: None,
         },
         "C20" => Plan {
